@@ -637,7 +637,26 @@ func symConv(t_dst, t_src types.Type, x value) value {
 			if d.Elem().Underlying().(*types.Basic).Kind() == types.Byte {
 				return append([]value(nil), []value(xv)...)
 			}
-			return conv(t_dst, t_src, concStr(x))
+			// []rune(s): paths on which a symbolic byte is not ASCII are cut (recorded), on the
+			// remaining paths runes are the bytes
+			for _, b := range xv {
+				if cb, ok := b.(uint8); ok && cb >= 0x80 {
+					return conv(t_dst, t_src, concStr(x))
+				}
+			}
+			out := make([]value, len(xv))
+			for i, b := range xv {
+				if sb, ok := b.(sym); ok {
+					if ex.Branch(Not(Cmp(OUlt, sb.t, BV(0x80, 8)))) {
+						ex.stats.Assumes["cut: non-ASCII symbolic text in string->[]rune"]++
+						panic(pathEnd{"non-ASCII symbolic text"})
+					}
+					out[i] = mkVal(types.Int32, Zext(sb.t, 32))
+				} else {
+					out[i] = int32(b.(uint8))
+				}
+			}
+			return out
 		}
 	}
 	panic(unsupported{fmt.Sprintf("symbolic conversion %s -> %s (%T)", t_src, t_dst, x)})
